@@ -53,6 +53,7 @@ func pick(xs []string) string { return xs[rng.Intn(len(xs))] }
 // every ASCII letter, digit and the underscore in turn as first character: boundary values of byte-range tests
 var firstChars = "abcdefghijklmnopqrstuvwxyzABCDEFGHIJKLMNOPQRSTUVWXYZ_0189"
 var firstCharNext int
+var foldNext int
 
 func genStr() (string, string) {
 	if rng.Intn(8) == 0 {
@@ -249,7 +250,14 @@ func gen(fixture string) app {
 			w("%q", string(unicode.ToUpper(r))+a[sz:])
 		}
 	case "exported":
-		if rng.Intn(4) == 0 {
+		if rng.Intn(8) == 0 {
+			// spellings whose upper-case form is an initialism although their byte length differs from it (U+017F long s, U+0131 dotless i):
+			// every initialism in turn, deterministic rotation
+			in := initialisms[foldNext%len(initialisms)]
+			foldNext++
+			a = strings.NewReplacer("s", "ſ", "i", "ı").Replace(strings.ToLower(in))
+			A.Class = "initialism-special-fold"
+		} else if rng.Intn(4) == 0 {
 			in := pick(initialisms)
 			switch rng.Intn(3) {
 			case 0:
